@@ -29,6 +29,36 @@ NOT_DECIDED = ["(L) cloudpickle fidelity for arbitrary functions", "(V) the enum
 REPLAY = {"combos": "combos", "cases": "cases", "shuffle": "shuffle"}
 
 
+def _settings_vars(ctx, m):
+    """locals of m bound to the settings record: `x = self.load_info()` or a component of the tuple returned by a helper that
+    loads it (`a, x = self._begin(...)` with `return a, self.load_info()`)"""
+    from ..util import callee_func
+    LOAD = CROP + ".Crop.load_info"
+    out = set()
+    for st in ast.walk(m.node):
+        if not (isinstance(st, ast.Assign) and len(st.targets) == 1 and isinstance(st.value, ast.Call)):
+            continue
+        t = st.targets[0]
+        if callee_name(ctx, m, st.value) == LOAD and isinstance(t, ast.Name):
+            out.add(t.id)
+            continue
+        h = callee_func(ctx, m, st.value)
+        if h is None or not isinstance(t, ast.Tuple):
+            continue
+        rets = [r for r in walk_shallow(h.node) if isinstance(r, ast.Return) and isinstance(r.value, ast.Tuple)]
+        if len(rets) != 1 or len(rets[0].value.elts) != len(t.elts):
+            continue
+        for i, e in enumerate(rets[0].value.elts):
+            src = e
+            if isinstance(e, ast.Name):
+                d = single_def(h, e.id)
+                src = d[1] if d and d[1] is not None else e
+            if isinstance(src, ast.Call) and callee_name(ctx, h, src) == LOAD and isinstance(t.elts[i], ast.Name):
+                ctx.touch(h)
+                out.add(t.elts[i].id)
+    return out
+
+
 def persist_replay_rule(ctx, rid):
     rr = ctx.rule(rid, "persist / replay agreement: record keys, like-named replay parameters, sow-time must-equality", floor=14)
     prog = ctx.prog
@@ -54,7 +84,7 @@ def persist_replay_rule(ctx, rid):
     n_reads = 0
     for m in crop.methods.values():
         g = build_cfg(m.node)
-        svars = {nm for nm in ("settings",) for d in [single_def(m, nm, g)] if d and isinstance(d[1], ast.Call) and callee_name(ctx, m, d[1]) == CROP + ".Crop.load_info"}
+        svars = _settings_vars(ctx, m)
         if not svars:
             continue
         ctx.touch(m, g)
@@ -81,7 +111,7 @@ def persist_replay_rule(ctx, rid):
                             rr.bad(ctx.finding(rid, m, c, "%s replays the enumeration without the persisted shuffle setting: results of a shuffled sow land in the wrong slots" % m.name, construct="replay-no-shuffle"), "%s replay shuffle" % m.name)
                         continue
                     t = norm(v)
-                    ok = t == "settings[%r]" % rk or t.startswith("settings.get(%r" % rk)
+                    ok = any(t == "%s[%r]" % (sv_, rk) or t.startswith("%s.get(%r" % (sv_, rk)) for sv_ in svars)
                     if ok and pk == "shuffle" and t.startswith("settings.get("):
                         d = v.args[1] if len(v.args) > 1 else None
                         ok = d is not None and isinstance(d, ast.Constant) and d.value is False
@@ -92,7 +122,7 @@ def persist_replay_rule(ctx, rid):
                                            % (m.name, pk, t, rk), construct="replay-param %s=%s" % (pk, t)), "%s replay %s" % (m.name, pk))
             if nm == CROP + ".Reaper":
                 v = arg(c, None, "num_batches")
-                if v is not None and norm(v) == "settings['num_batches']":
+                if v is not None and any(norm(v) == "%s['num_batches']" % sv_ for sv_ in svars):
                     rr.ok("%s: Reaper(num_batches=settings['num_batches'])" % m.name)
                 else:
                     rr.bad(ctx.finding(rid, m, c, "%s builds the Reaper with num_batches=%s instead of the persisted number" % (m.name, norm(v) if v else None), construct="reaper-num_batches"), "%s reaper num_batches" % m.name)
